@@ -332,9 +332,14 @@ def gen_history(rng, profile, faults=False, sweep=False, hostile=False, reuse=Fa
         else:
             k = rng.random()
             types = [] if k < 0.45 else [rng.choice("IS") for _ in range(rng.randint(1, 3))]
+            forced = None
+            if rng.random() < 0.25:
+                # a program that takes its operands from the input stack, and inputs to match
+                forced, ty = rng.choice(gen.SEED_PROGRAMS_TYPED)
+                types = list(ty)
             ins = []
             mixed = rng.random() < 0.3
-            pooled = (not mixed) and types and rng.random() < 0.4
+            pooled = (not mixed) and types and rng.random() < (0.8 if forced else 0.4)
             pool = {}
             for _ in range(rng.choice([1, 1, 2, 3] if mixed else [2, 3, 4] if pooled else [1, 1, 2])):
                 i = b.i()
@@ -362,7 +367,7 @@ def gen_history(rng, profile, faults=False, sweep=False, hostile=False, reuse=Fa
                         del its[j]
                 b.setup.append(P.step(0, "MKIN", i, *[lit_item(rng, t) for t in its]))
                 ins.append(i)
-            groups.append({"types": types, "inputs": ins, "dw": False})
+            groups.append({"types": types, "inputs": ins, "dw": False, "forced": forced})
 
     # ---- programs and queries
     queries = []    # (q, prog idx, group, info)
@@ -375,6 +380,8 @@ def gen_history(rng, profile, faults=False, sweep=False, hostile=False, reuse=Fa
                 # hostile programs that compile are only executed if they
                 # cannot legitimately run forever
                 info["noexec"] = ("*" in text or "+" in text)
+            elif g.get("forced") and rng.random() < 0.8:
+                text, info = g["forced"], {"bomb": False, "out": ["X"], "src": "typed-seed"}
             elif damaged and g["dw"] and rng.random() < 0.7:
                 text = rng.choice(REUSE_PROGRAMS + ["entry parent offset", "entry child parent offset",
                                                     "unit root child parent offset", "entry root offset"])
@@ -495,7 +502,14 @@ def gen_history(rng, profile, faults=False, sweep=False, hostile=False, reuse=Fa
                 depth = 0
                 out_t = info.get("out") or ["X"]
                 top = out_t[-1] if out_t else "X"
-                text2, info2 = choose_program(rng, [top] if top in ("I", "S", "Q", "QS", "QQ", "E", "A", "U", "D")
+                if top == "E" and rng.random() < 0.4:
+                    text2, info2 = rng.choice(["root offset", "parent offset", "root", "parent", "root \"%s\"", "?root offset",
+                                               "parent ?root offset", "parent \"%s\"", "root child offset", "dup root (== )" if False else "root label"]), {"out": ["X"]}
+                elif top == "D" and rng.random() < 0.4:
+                    text2, info2 = rng.choice(["unit offset", "entry offset", "[unit] length", "[unit entry] length", "unit root offset",
+                                               "raw unit offset", "cooked unit offset", "entry ?root offset"]), {"out": ["X"]}
+                else:
+                  text2, info2 = choose_program(rng, [top] if top in ("I", "S", "Q", "QS", "QQ", "E", "A", "U", "D")
                                               else [], top in ("E", "A", "U", "D"), bombs=False) \
                     if top not in ("X", "B") else (rng.choice(["dup", "type", "\"%s\"", "[dup]", "apply", "elem", "child", "value",
                                                                "apply", "(|F| 5 F)", "(|F| (1, 2) F)", "5 swap apply",
@@ -519,6 +533,25 @@ def gen_history(rng, profile, faults=False, sweep=False, hostile=False, reuse=Fa
                 queries.append((q2, b.plan["progs"].index({"text": text2, "mode": 0}), None, info2))
                 # splice: the derived work starts after the pull that keeps the value
                 st = st + extra
+            b.scripts[c] += st
+        # the raw and the cooked flavour of one Dwarf handle through the same
+        # compiled query: "raw"/"cooked" yields the other flavour, which becomes
+        # the input of a query that also runs on the original
+        dwq = [x for x in runnable if x[2] is not None and x[2]["dw"]]
+        if dwq and rng.random() < 0.2:
+            q, p, g, info = rng.choice(dwq)
+            i = rng.choice(g["inputs"])
+            c = rng.randrange(nclients)
+            qf = b.q()
+            kept = b.o()
+            rf = b.res()
+            i2 = b.i()
+            st = [parse_step(c, qf, b.prog(rng.choice(["raw", "cooked", "raw", ""]), 0), g), P.step(c, "EXEC", rf, qf, i),
+                  P.step(c, "PULL", rf, kept), P.step(c, "CANCEL", rf), P.step(c, "MKIN", i2, "O:%d:0" % kept)]
+            order = [i, i2] if rng.random() < 0.5 else [i2, i]
+            for ii in order + ([order[0]] if rng.random() < 0.5 else []):
+                s2, _ = task_steps(b, c, q, ii, rng.choice([None, None, 3]))
+                st += s2
             b.scripts[c] += st
         # the same query over inputs that repeat: A, B, B, A -- anything keyed
         # by input values that outlives one execution (a memo in an op, say)
